@@ -282,6 +282,20 @@ fn run(s: &Scn, st: &mut Stats) -> Verdict {
                     .as_bytes(),
             ));
         }
+        // independent of the checker (which shares the permutation assembly with key
+        // generation): one end of a copy constraint moved by a non-zero offset while the
+        // other end keeps its value - the copy constraint is violated whatever the checker says
+        if real_ok && plan.class.starts_with("copy-") {
+            if let Some(c) = &plan.cell {
+                if matches!(&c.kind, crate::gen_circuit::FaultKind::Add(d) if d.0 != midnight_curves::Fq::from(0)) {
+                    return Verdict::Violation(Viol::new(
+                        "CopyConstraintNotEnforced",
+                        format!("CopyConstraintNotEnforced:{}", plan.class),
+                        format!("plan {pi} class={} edit={:?}: one end of a copy constraint is moved by a non-zero offset and the real verifier accepts the proof (checker: {})", plan.class, (&c.site, &c.kind), if mock_ok { "accepts too" } else { "rejects" }),
+                    ));
+                }
+            }
+        }
         if real_ok != mock_ok {
             let side = if real_ok { "verifier-accepts-checker-rejects" } else { "verifier-rejects-checker-accepts" };
             return Verdict::Violation(Viol::new(
